@@ -88,6 +88,10 @@ func (m *ippMsg) decode(raw []byte) error {
 
 	// Groups, dtag is a delimiter(group) tag
 	for dtag := dec.Byte(); dtag != endAttribTag; dtag = dec.Byte() {
+		// out of data before the end-of-attributes tag
+		if err := dec.LastError(); err != nil {
+			return err
+		}
 
 		group := &attribGroup{tag: dtag}
 		if err := group.decode(dec); err != nil {
